@@ -19,6 +19,7 @@ from random import random
 
 import numpy as np
 
+from ...__settings import settings
 from ...sdk.circuit import Circuit
 from ...sdk.state import State
 from ...sdk.utils import (
@@ -470,6 +471,7 @@ class Sampler:
             self.__circuit.heralds,
             self.input_state,
             self.backend.backend,
+            settings.sampler_probability_threshold,
         ]
         # Loop through source parameters and add these as well
         for prop in [
